@@ -46,3 +46,46 @@ contract(P + "MoveImportsToTypeCheckingBlockVisitor._remove_typing_module", prop
                     "inv": {"no-runtime": "forall(ret, lambda it: item_module(it) != 'typing' and item_module(it) != 'mypy_extensions' and has(import_item_list, it))",
                             "kept": "forall(range_(0, _i), lambda j: implies(item_module(nth(import_item_list, j)) != 'typing' and item_module(nth(import_item_list, j)) != 'mypy_extensions', has(ret, nth(import_item_list, j))))"}},
                 "tags": {"ret": "Seq[Item]"}})
+
+_BODY = "m_body(module)"
+_ALL = "g_all(gathered_from(module))"
+_IMP = "(is_simple(nth(%s, {j})) and exists(stmt_body(nth(%s, {j})), lambda p: has(%s, p)))" % (_BODY, _BODY, _ALL)
+_LOC = "type_checking_block_add_location"
+contract(P + "MoveImportsToTypeCheckingBlockVisitor._split_module", props=["C16", "C15"], theories=TH,
+         params={"self": "Mover", "module": "CstModule"}, result="seq",
+         ensures={
+             # the module body is cut in two, nothing lost, nothing reordered ...
+             "post:split": "len(result) == 2 and len(nth(result, 0)) + len(nth(result, 1)) == len(%s)"
+                           " and forall(range_(0, len(nth(result, 0))), lambda j: nth(nth(result, 0), j) is nth(%s, j))"
+                           " and forall(range_(0, len(nth(result, 1))), lambda j: nth(nth(result, 1), j) is nth(%s, len(nth(result, 0)) + j))" % (_BODY, _BODY, _BODY),
+             # ... right after the last top-level statement line that holds an import: every import line of the source stays before the TYPE_CHECKING block
+             "post:after-last-import": "forall(range_(len(nth(result, 0)), len(%s)), lambda j: not %s) and (len(nth(result, 0)) == 0 or %s)"
+                                       % (_BODY, _IMP.format(j="j"), _IMP.format(j="len(nth(result, 0)) - 1")),
+         },
+         loops={0: {"iter": "enumerate(module.body)",
+                    "inv": {"range": "0 <= %s and %s <= _i" % (_LOC, _LOC),
+                            "none-after": "forall(range_(%s, _i), lambda j: not %s)" % (_LOC, _IMP.format(j="j")),
+                            "last": "%s == 0 or %s" % (_LOC, _IMP.format(j=_LOC + " - 1"))}},
+                1: {"iter": "statement.body",
+                    "inv": {"scan": "(%s == i + 1 and %s) or (%s == pre_loop('%s') and forall(range_(0, _i), lambda q: not has(%s, nth(stmt_body(statement), q))))"
+                                    % (_LOC, _IMP.format(j="i"), _LOC, _LOC, _ALL),
+                            "stmt": "statement is nth(%s, i) and is_simple(statement) and 0 <= i and i < len(%s) and all_imports is %s" % (_BODY, _BODY, _ALL)}},
+                2: {"iter": "all_imports",
+                    "inv": {"scan": "(%s == i + 1 and %s) or (%s == pre_loop('%s') and forall(range_(0, _i), lambda q: possible_import is not nth(all_imports, q)))"
+                                    % (_LOC, _IMP.format(j="i"), _LOC, _LOC),
+                            "stmt": "statement is nth(%s, i) and is_simple(statement) and 0 <= i and i < len(%s) and all_imports is %s and has(stmt_body(statement), possible_import)" % (_BODY, _BODY, _ALL)}}})
+
+_OLD, _NEWB = "m_body(module)", "m_body(result)"
+_BLOCK = "cst_tc_block(cst_parsed('\\nif TYPE_CHECKING:\\n    pass\\n'), cst_import_module(self.import_items_to_be_moved))"
+_IMPO = "(is_simple(nth(%s, {j})) and exists(stmt_body(nth(%s, {j})), lambda p: has(%s, p)))" % (_OLD, _OLD, _ALL)
+contract(P + "MoveImportsToTypeCheckingBlockVisitor._add_if_type_checking_block", props=["C16", "C15"], theories=TH,
+         params={"self": "Mover", "module": "CstModule"}, result="CstModule",
+         ensures={
+             "post:nothing-to-move": "implies(len(self.import_items_to_be_moved) == 0, result is module)",
+             # one statement - the `if TYPE_CHECKING:` block holding the imports to be moved - is inserted right after the last top-level import line;
+             # every statement of the module is kept, in order, on its side of it
+             "post:inserted": "implies(len(self.import_items_to_be_moved) > 0, len(%s) == len(%s) + 1 and exists(range_(0, len(%s) + 1), lambda c:"
+                              " forall(range_(0, c), lambda j: nth(%s, j) is nth(%s, j)) and nth(%s, c) is %s"
+                              " and forall(range_(c, len(%s)), lambda j: nth(%s, j + 1) is nth(%s, j) and not %s) and (c == 0 or %s)))"
+                              % (_NEWB, _OLD, _OLD, _NEWB, _OLD, _NEWB, _BLOCK, _OLD, _NEWB, _OLD, _IMPO.format(j="j"), _IMPO.format(j="c - 1")),
+         })
